@@ -69,11 +69,4 @@ Proof. intros e s. exists e. apply emits_nil. Qed.
 Lemma stmtC_app a c : stmtC a -> stmtC c -> stmtC (a ++ c).
 Proof. intros A C e s. destruct (A e s) as (e1 & A1). destruct (C e1 s) as (e2 & C2). exists e2. exact (emits_app0 _ _ _ _ _ _ _ _ _ A1 C2). Qed.
 
-Lemma emits_jsln cs n m s m' s' d : emits md cs m s m' s' d -> emits md (CText (indent_text n) :: cs ++ [CText t_nl]) m s m' s' d.
-Proof.
-  intro H. change (CText (indent_text n) :: cs ++ [CText t_nl]) with ([CText (indent_text n)] ++ cs ++ [CText t_nl]).
-  replace d with ([] ++ d ++ []) by (rewrite app_nil_r; reflexivity).
-  eapply emits_app. apply emits_indent. eapply emits_app. exact H.
-  exists []. split; reflexivity.
-Qed.
 End Inv.
